@@ -163,8 +163,8 @@ func (r *Reader) loadChapters(zr *zip.Reader) error {
 
 // resolveHref resolves a relative href against the OPF base directory.
 func (r *Reader) resolveHref(href string) string {
-	// URL-decode the href
-	if decoded, err := url.QueryUnescape(href); err == nil {
+	// Percent-decode the href as a path: a literal + in a file name stays a +
+	if decoded, err := url.PathUnescape(href); err == nil {
 		href = decoded
 	}
 
